@@ -280,6 +280,11 @@ type workerOut struct {
 	Incomplete    bool             `json:"incomplete"`
 	ShapeEvals    int64            `json:"input_shape_evaluations"`
 	ShapeAccepted int64            `json:"input_shape_accepted"`
+	Gates         int              `json:"height_gates"`
+	GateHeights   int              `json:"gate_heights"`
+	GateEvals     int64            `json:"gate_evaluations"`
+	GateAccepted  int64            `json:"gate_accepted"`
+	GatePanics    int64            `json:"gate_panics"`
 }
 
 func wraps(m *mset) bool { return !m.Sum.IsInt64() }
@@ -488,6 +493,7 @@ func runEnum(r *evid.Run, scr string) workerOut {
 		}
 	})
 	f.runInputShapes(&res, addViol)
+	f.runGates(&res, addViol)
 	var sigs []string
 	for s := range viol {
 		sigs = append(sigs, s)
@@ -710,6 +716,19 @@ func main() {
 		case "enum":
 			var c caseA
 			json.Unmarshal(a.Case, &c)
+			if c.Shape == "gate" {
+				var w workerOut
+				w.Classes, w.Panics = map[string]int{}, map[string]int{}
+				f.runGates(&w, func(s2, what string, c2 caseA) {
+					if s2 == sig {
+						fmt.Printf("  %s\n", what)
+						r.Violate(s2, what, map[string]interface{}{"kind": "enum", "case": c2})
+					}
+				})
+				f.node.Close()
+				os.RemoveAll(scr)
+				r.Finish(evid.Coverage{})
+			}
 			if c.Shape != "" {
 				for _, sh := range allShapes() {
 					if sh.Name != c.Shape {
@@ -795,7 +814,7 @@ func main() {
 		samples = append(samples, c)
 	}
 	r.Finish(evid.Coverage{
-		"evaluations":         x.Evals + x.OutChecks + x.ShapeEvals + int64(len(x.Confirm)),
+		"evaluations":         x.Evals + x.OutChecks + x.ShapeEvals + x.GateEvals + int64(len(x.Confirm)),
 		"distinct_nontrivial": len(x.Classes),
 		"rule": "every non-coinbase transaction type x heights x all output multisets over the 15-value alphabet (per-output check) x all input multisets over the 12-value alphabet (fee check on those that passed): accepted => no negative output and exact sum(outputs) <= exact sum(inputs) and GetTxFee exact; plus signed TransferAsset vectors on a light node through CheckTransactionSanity/Context and the pool. " +
 			"non-trivial = distinct (height, output count, per-output verdict, error) classes",
@@ -813,6 +832,11 @@ func main() {
 		"harness_panics":                       pan,
 		"input_shape_evaluations":              x.ShapeEvals,
 		"input_shape_accepted":                 x.ShapeAccepted,
+		"height_gates":                         x.Gates,
+		"gate_heights":                         x.GateHeights,
+		"gate_evaluations":                     x.GateEvals,
+		"gate_accepted":                        x.GateAccepted,
+		"gate_panics":                          x.GatePanics,
 		"light_node_confirm":                   x.Confirm,
 		"light_node_confirm_activate_producer": aps,
 		"samples":                              samples,
@@ -823,21 +847,28 @@ func judgeAP(r *evid.Run, aps []apRes) {
 	for _, a := range aps {
 		art := map[string]interface{}{"kind": "ap", "case": a}
 		m := mkSet(a.Outputs)
+		if a.Control && !a.Accepted {
+			evid.Fatalf("C01 ActivateProducer fixture: a control transaction is not accepted: %+v", a)
+		}
+		if !a.Accepted {
+			continue
+		}
+		site := "ActivateProducer"
+		if a.Path == "cr-member" {
+			site = "ActivateProducer(council-member path)"
+		}
+		desc := fmt.Sprintf("a signed ActivateProducer (%s path, %s, height %d) listing %d input(s) over %d distinct 1000-sela output(s) with outputs %v passes the complete SanityCheck and ContextCheck", a.Path, a.Name, a.H, a.Inputs, a.Distinct, a.Outputs)
 		switch {
-		case m.Sum.Cmp(big.NewInt(a.Input)) <= 0 && !m.HasNeg:
-			if !a.Accepted {
-				evid.Fatalf("C01 ActivateProducer fixture: the control transaction is not accepted: %+v", a)
-			}
-		case !a.Accepted:
-		case a.Inputs > a.Distinct && m.Sum.IsInt64():
-			r.Violate("C01|value-created|outpoint-counted-twice|ActivateProducer",
-				fmt.Sprintf("an inactive producer's signed ActivateProducer (%s) listing %d inputs over %d distinct %d-sela output(s) with outputs %v passes the complete SanityCheck and ContextCheck", a.Name, a.Inputs, a.Distinct, 1000, a.Outputs), art)
 		case m.HasNeg:
-			r.Violate("C01|negative-output-accepted|ActivateProducer",
-				fmt.Sprintf("an inactive producer's signed ActivateProducer spending one %d-sela output with outputs %v passes the complete SanityCheck and ContextCheck", a.Input, a.Outputs), art)
+			r.Violate("C01|negative-output-accepted|"+site, desc, art)
+		case m.Sum.Cmp(big.NewInt(a.Input)) <= 0:
+			// value is conserved
+		case !m.Sum.IsInt64():
+			r.Violate("C01|value-created|output-sum-wraps|"+site, desc, art)
+		case a.Inputs > a.Distinct:
+			r.Violate("C01|value-created|outpoint-counted-twice|"+site, desc, art)
 		default:
-			r.Violate("C01|value-created|output-sum-wraps|ActivateProducer",
-				fmt.Sprintf("an inactive producer's signed ActivateProducer spending one %d-sela output with outputs %v (exact sum %s) passes the complete SanityCheck and ContextCheck", a.Input, a.Outputs, m.Sum), art)
+			r.Violate("C01|value-created|fee-check-skipped|"+site, desc+": nothing compared the outputs with the inputs", art)
 		}
 	}
 }
